@@ -1386,6 +1386,35 @@ Proof.
     + exfalso. eapply Ho. reflexivity.
 Qed.
 
+(* size limits, as statements about calls *)
+Lemma replace_result_within : forall args, text_within (call_function FReplace args).
+Proof.
+  intros args. unfold ExEval.call_function. rewrite call_not_foreach by discriminate. unfold ExEval.call_simple, min_max_args.
+  match goal with |- text_within (if ?c then _ else _) => destruct c end; [exact I|apply replace_body_within].
+Qed.
+
+Lemma join_result_within : forall args, text_within (call_function FJoin args).
+Proof.
+  intros args. unfold ExEval.call_function. rewrite call_not_foreach by discriminate.
+  unfold ExEval.call_simple, two_arg_function, num_args, min_max_args.
+  match goal with |- text_within (if ?c then _ else _) => destruct c end; [exact I|].
+  apply with_arg_within. intros v0. apply with_arg_within. intros v1. apply join_fn_within.
+Qed.
+
+Lemma foreach_result_within : forall args out,
+  call_function FForEach args = Ret (VArray out) -> items_cost out <= max_render_size.
+Proof.
+  intros args out. unfold ExEval.call_function. destruct (length args) as [|fuel] eqn:El; simpl; unfold min_args, min_max_args;
+    (match goal with |- (if ?c then _ else _) = _ -> _ => destruct c end; [discriminate|]);
+    unfold with_arg; (destruct (nth_error args 0) as [v0|]; [|discriminate]);
+    (destruct (to_array v0) as [items|]; [|discriminate]);
+    (destruct (nth_error args 1) as [v1|]; [|discriminate]);
+    (destruct (to_function v1) as [g|]; [|discriminate]);
+    unfold with_rest; (destruct (go_slice_from args (Z.of_nat 2)) as [other|]; [|discriminate]); [discriminate|].
+  intros H. apply foreach_items_budget in H; [|unfold max_render_size; lia].
+  destruct H as [rest [H1 H2]]. simpl in H1. subst out. exact H2.
+Qed.
+
 Lemma word_no_panic : forall args c, call_function FWord args <> Panic c.
 Proof. intros. apply builtin_no_panic. reflexivity. Qed.
 Lemma word_slice_no_panic : forall args c, call_function FWordSlice args <> Panic c.
